@@ -148,6 +148,9 @@ static int run_fwd()
 // ---------------- ownership of composable allocators (C08 a) ----------------
 template <class A> static auto cap_of(A& a, int) -> decltype(a.capacity_left()) { return a.capacity_left(); }
 template <class A> static std::size_t cap_of(A& a, long) { return allocator_traits<A>::max_node_size(a); }
+// memory of an earlier iteration is still live (and owned) after a switch
+template <class A> static void age(A&) {}
+template <std::size_t N, class B> static void age(iteration_allocator<N, B>& a) { a.next_iteration(); }
 template <class A, class MkA>
 static void own_test(const char* name, MkA mk, std::size_t size, std::size_t al, int n)
 {
@@ -156,6 +159,8 @@ static void own_test(const char* name, MkA mk, std::size_t size, std::size_t al,
     using tr = allocator_traits<A>; using ctr = composable_allocator_traits<A>;
     std::vector<void*> pa, pb;
     for (int i = 0; i < n; ++i) { try { pa.push_back(tr::allocate_node(*a, size, al)); } catch (...) {} try { pb.push_back(tr::allocate_node(*b, size, al)); } catch (...) {} }
+    age(*a); age(*b);
+    for (int i = 0; i < n / 2; ++i) { try { pa.push_back(tr::allocate_node(*a, size, al)); } catch (...) {} try { pb.push_back(tr::allocate_node(*b, size, al)); } catch (...) {} }
     long wrong_true = 0, wrong_false = 0, changed = 0, tests = 0;
     auto probe = [&](A& who, void* p, bool expect) {
         ++tests;
